@@ -701,11 +701,13 @@ func TestVerifC17(t *testing.T) {
 		run("concurrent-expiry", c17In{G: int64(100 * time.Millisecond), NP: 1, Mode: "stress", Rounds: rounds, Q: 3 + e.rng.Intn(3),
 			Budget: budget, Ops: []c17Op{{K: "block", P: 0, D: 1}, {K: "block", P: 0, D: 0, Adv: 2}, {K: "query", P: 0}}})
 	}
-	// many-peers: more than a thousand distinct peers are blocked; the ones blocked first stay blocked
+	// many-peers: thousands of distinct peers are blocked; the ones blocked first stay blocked
 	{
-		n := 1100 + e.rng.Intn(300)
+		// enough placements to cross the usual power-of-two resource thresholds (1024, 4096;
+		// thorough also 8192, 16384); thresholds above that are not observed
+		n := 4200 + e.rng.Intn(200)
 		if e.Tier == "thorough" {
-			n = 3000
+			n = 20000
 		}
 		in := c17In{G: int64(10 * time.Second), NP: 4, Mode: "many"}
 		for i := 0; i < n; i++ {
